@@ -45,6 +45,13 @@ def run(ctx):
     c01.run(dep(ctx, "C04", "C01"))
     c03.maps_rules(dep(ctx, "C04", "C03"), "C03")
     c03.canonical_min_rule(dep(ctx, "C04", "C03"), "C03.M")
+    # "the row of a record holds the counts of THAT record": the batch writer keeps arrival order
+    fb_ = ctx.view("composition::oligo::OligoComputer::vectorise_batch")
+    if fb_ is not None:
+        d5 = dep(ctx, "C04", "C05")
+        rule_ordered_collects(d5, "C05.O", fb_, 1)
+        rule_sink_sequential(d5, "C05.O", fb_, "oligo::vectorise_batch")
+        rule_flush_pairing(d5, "C05.F", fb_, "oligo::vectorise_batch")
     from . import c06
     c06.reader_deps(ctx, "C04")
     from . import c15
